@@ -37,16 +37,21 @@ CFG = dict(
     rigs=[dict(test="TestC15Table", timeout_quick=120, timeout_thorough=300),
           dict(test="TestC15Race", timeout_quick=400, timeout_thorough=1500)],
     reason_text={"1": "tie broken: a justification line is stale, a function's locking is path-sensitive (rejected, not analysed), "
-                      "the lockset tool or the race build failed, or the harness itself raced",
+                      "the lockset tool or the race build failed, the harness itself raced, or a race workload in which nothing went through (no "
+                      "successful call, message or envelope: it proves nothing)",
                  "2": "data race: a field is accessed with inconsistent locking and no justification (race_free_table false on "
                       "its rows; the case names the field and the sites), or the race detector reported a race with a goat frame "
                       "(the replay is the report), or the race binary died"},
     rule="static: every access site of every field of the tracked structs (one case per field: rows = read/write, function, "
          "locks held on straight-line Lock/defer Unlock/Unlock paths, *Locked helpers inherit, class plain/atomic/init/confined/"
          "pub:<tag>/after:<tag>; no wildcard for after-sites); "
-         "dynamic: 6 workloads x GOMAXPROCS {1,4,16} (thorough: 12 repetitions each) under -race with seeded yields; "
+         "dynamic: 7 workloads (mux, mux-stop, chan, proxy, demux, http, opts) x GOMAXPROCS {1,4,16} x 2 repetitions (thorough: 12 repetitions each) under -race with seeded yields; "
          "non-trivial = distinct description hash",
     assumptions=["tools/locksets and tools/locksets/justify.txt are trusted (the justifications are hand-written arguments)",
+                 "a lock is named struct.field by the tool; the theorem's hypothesis (conforms) needs every access to a field of object o that names lock m to "
+                 "hold the SAME mutex instance, interp.lockobj o m: the object itself, or - for the rows guarded by another struct's mutex (demuxConn under "
+                 "Demux.conns, httpReadWriter under GoatOverHttp.conns, respHandler under RpcMultiplexer.mutex, proxyClient under Proxy.mutex, streamHandler "
+                 "under handler.mu) - the ONE container that owns the object; that every such object has exactly one owner is read off the code, not checked",
                  "Server.RegisterService is only called before the first Serve (gRPC's registration contract; not enforced by the code)",
                  "the Go race detector (ThreadSanitizer) reports only real races and only on the schedules that ran"],
 )
